@@ -53,6 +53,7 @@ def oracle(c, out):
     in_order = True
     max_label = None
     stored_fh = None
+    was_fitted = False
     for op, (r, st) in zip(c["ops"], res):
         k = op[0]
         fitted, cut, n, fhs = st
@@ -67,6 +68,8 @@ def oracle(c, out):
             if not (c["mode"] == "r" and k != "fit"):
                 stored_fh = given
         # ---- cutoff clauses
+        if k == "fit":
+            was_fitted = r[0] == "ok"
         if k == "fit" and r[0] == "ok":
             if cut != _last(op[1]):
                 fails.append((site + ":cutoff-after-fit", "cutoff %r after fit on series ending at %r" % (cut, _last(op[1]))))
@@ -91,6 +94,11 @@ def oracle(c, out):
                             if v is None or (isinstance(v, float) and not math.isfinite(v)):
                                 fails.append((site + ":predict-not-finite", "non-finite forecast at %r for finite data" % l))
                                 break
+        # a valid out-of-sample request on a fitted forecaster must be answered
+        if k in ("pred", "ups") and r[0] == "E" and in_order and c["mode"] == "o" and was_fitted and stored_fh is not None \
+                and stored_fh[0] == "r" and all(s_ > 0 for s_ in stored_fh[1]) and len(set(stored_fh[1])) == len(stored_fh[1]) \
+                and not (k == "ups" and any(v is None for _, v in op[1])):
+            fails.append((site + ":valid-predict-rejected", "%s with horizon %r on a fitted forecaster raised %s" % (k, stored_fh, r[1])))
         if k in ("fit", "upd", "up", "ups") and op[1]:
             # also after an error: a failed update / update_predict may already have merged its data
             ml = max(l for l, _ in op[1])
@@ -194,7 +202,7 @@ def _history(rng, core, mode, long=False):
     maxh = 3 if opq else 5
     fit_fh = None
     if mode == "r" or opq or rng.random() < 0.5:
-        fit_fh = M.rand_fh(rng, "oos", cutoff if (mode == "o" and rng.random() < 0.3) else None, maxh)
+        fit_fh = M.rand_fh(rng, "oos", cutoff if (mode == "o" and not opq and rng.random() < 0.3) else None, maxh)
     stored_oos = fit_fh is not None
     ops = [["fit", y0, fit_fh]]
     nops = rng.randrange(1, 7 if long else 5)
@@ -237,6 +245,10 @@ def _history(rng, core, mode, long=False):
                         rng.randrange(1, 4), rng.randrange(1, 3), None, rng.random() < 0.5]
             cv = explicit if (not stored_oos or rng.random() < 0.5) else None
             ops.append(["up", batch, cv, rng.random() < 0.3])
+    if opq and not any(o[0] in ("upd", "ups") for o in ops):
+        ops.append(["upd", M.stretch(rng, cutoff + 1, rng.randrange(2, 5), 0.0, True, 0.0), rng.random() < 0.4])
+    if opq and ops[-1][0] != "pred":
+        ops.append(["pred", None if mode == "r" else M.rand_fh(rng, "oos", None, maxh)])
     return ops
 
 
@@ -251,7 +263,7 @@ def gen_cases(tier, rng):
         cases.append({"prop": PROP, "core": core, "mode": mode, "ops": _history(rng, core, mode, long=not quick),
                       "shift": rng.choice([0, 0, 5, -3, 1000]), "range": rng.random() < 0.5})
     table = M._opaque_table()
-    per = 4 if quick else 25
+    per = 10 if quick else 40
     for name, (mode, _) in sorted(table.items()):
         for j in range(per):
             cases.append({"prop": PROP, "core": "opaque:" + name, "mode": mode, "ops": _history(rng, "opaque:" + name, mode),
